@@ -10,6 +10,7 @@ package h_c08
 
 import (
 	"fmt"
+	"runtime"
 	"strings"
 	"sync"
 	"time"
@@ -343,7 +344,7 @@ func (w *vkWorld) honest(server string, q dns.Question, do bool) *dns.Msg {
 	switch {
 	case cfg.Beh == "twons" && e.QName == vkNSB && q.Qtype == dns.TypeA && server == vkSrvCOld:
 		e.Lag = 3
-	case cfg.Beh == "lagval" && q.Qtype == dns.TypeDNSKEY && (server == vkSrvP || server == vkSrvRoot):
+	case cfg.Beh == "lagval" && q.Qtype == dns.TypeDNSKEY && ((server == vkSrvP && e.QName == vkZoneP) || (server == vkSrvRoot && e.QName == ".")):
 		e.Lag = 3
 	}
 	w.mu.Lock()
@@ -362,7 +363,7 @@ func vkA(name, addr string, ttl uint32) *dns.A {
 
 // reset returns resolver, cache, simulation, clock and reference to the cold state.
 func (w *vkWorld) reset(cfg vkCfg) {
-	w.waitIdle()
+	w.waitIdle(nil)
 	w.pl.Reset()
 	vtime.SetOffset(0)
 	w.mu.Lock()
@@ -374,26 +375,28 @@ func (w *vkWorld) reset(cfg vkCfg) {
 	w.broken = ""
 }
 
-// waitIdle blocks until no background refresh is queued or running.
-func (w *vkWorld) waitIdle() bool {
+// waitIdle blocks until no background refresh is queued or running. A refresh is claimed (flag on the entry that was
+// hit) synchronously on the hit path, before the client's reply is written, and the claim is released by the worker's
+// last deferred call — after the refreshed entry and its side effects (denial proofs, subtree cuts) are stored. hit is
+// the pre-ask handle of the entry the ask could hit (nil = none).
+func (w *vkWorld) waitIdle(hit any) bool {
 	if !w.key.prefetch {
 		return true
 	}
-	deadline := time.Now().Add(3 * time.Second)
-	quiet := 0
-	for time.Now().Before(deadline) {
-		if cache.VerifC08PrefetchBusy(w.pl.Cache()) {
-			quiet = 0
-			time.Sleep(200 * time.Microsecond)
-			continue
-		}
-		quiet++
-		if quiet >= 2 {
+	deadline := time.Now().Add(7 * time.Second) // beyond the refresh worker's own 5 s bound
+	for spin := 0; ; spin++ {
+		if !(hit != nil && cache.VerifC08Claimed(hit)) && !cache.VerifC08PrefetchBusy(w.pl.Cache()) {
 			return true
 		}
-		time.Sleep(100 * time.Microsecond)
+		if spin < 2000 {
+			runtime.Gosched()
+			continue
+		}
+		if time.Now().After(deadline) {
+			return false
+		}
+		time.Sleep(50 * time.Microsecond)
 	}
-	return false
 }
 
 func (w *vkWorld) exchanges() []vkExchange {
